@@ -13,6 +13,13 @@ ASSUMPTIONS = [
     'rebalancing test abs(p/(n-2)-0.5) > abs(p1/(n-2)-0.5)+sf is decided in binary64: the model takes the set of (p,p1,n-2) on '
     'which binary64 and exact arithmetic differ as an input computed by the harness with the same Python expression',
     'GlobalTrapezoidalGrid only (mid point = 0.5*(a+b)); chebyshev / weighted mid points / force_balanced_refinement_tree not modelled',
+    'deep / install families drive the strategy directly: obj.benefit is set on every object, sa.benefit_max = refinement.get_max_benefit() '
+    '(what evaluate_operation does after the error estimation), sa.refine(); no evaluation between the steps. A violation found this way is '
+    'replayed through the public API (scripted ErrorCalculator, refine + continue_adaptive_refinement) and reported in that form when it reproduces',
+    'install family: the refinementObjects lists of the containers of a freshly initialised strategy are replaced by '
+    'RefinementObjectSingleDimension objects of a randomly constructed VALID tree (dyadic geometry, 7 of 8 refine the initial grid, binary-tree '
+    'levels, >= 3 intervals) and refinement_postprocessing() is called (sa.rebalancing toggled for that call); such states over-approximate the '
+    'reachable ones - C06_install_inv / C03_*_installed prove the properties for all of them',
 ]
 FIELDS = ['trees', 'lmax', 'active', 'old', 'scheme', 'book']
 PROP = 6
@@ -47,8 +54,63 @@ def corpus(what):
     return out
 
 
+def _first_failure(c, r, extra_oracle):
+    """(why, step) of the first violated property clause in the implementation states / selections of one run, or (None, None).
+    The half-updated state left behind by an exception is not inspected (the exception itself is reported)."""
+    nst = len(r['states']) - (1 if 'exc' in r else 0)
+    for step in range(nst):
+        s = r['states'][step]
+        why = dw.oracle_state_c06(c, s)
+        if why is None and extra_oracle is not None:
+            why = extra_oracle(c, s)
+        if why:
+            return why, step
+    for step, (b, sel) in enumerate(zip(r['bens'], r['selected'])):
+        if step + 1 >= nst:
+            break
+        w = dw.oracle_selection(c, b, sel)
+        if w:
+            return 'step %d: %s' % (step + 1, w), step + 1
+    return None, None
+
+
+def _confirm_public(c, nbens, extra_oracle):
+    """A failing direct-drive history is replayed through the public API only (scripted ErrorCalculator, refine() +
+    continue_adaptive_refinement); returns the case to report (the public-API one when it fails as well)."""
+    if c.get('drive', 'full') != 'direct':
+        return c, nbens
+    pc = dict(c, drive='full', bens=nbens, steps=len(nbens))
+    try:
+        (st, r), = run_impl(dw.impl_run, [pc], nproc=1, limit=300)
+    except Exception:
+        return c, nbens
+    if st == 'exc':
+        return pc, nbens
+    if st == 'ok':
+        if 'exc' in r:
+            return dict(pc, bens=jsonable_bens(r['bens'][:r['exc'][3]]), steps=r['exc'][3]), None
+        why, wstep = _first_failure(pc, r, extra_oracle)
+        if why:
+            return dict(pc, bens=jsonable_bens(r['bens'][:wstep]), steps=wstep), None
+    return c, nbens
+
+
 def evaluate(chk, cases, what, fields, prop, extra_oracle=None):
     """Runs implementation and model on the cases, compares, evaluates checker and oracles. Returns per-case info."""
+    # the library is imported once here, before the worker processes are forked (they inherit the loaded modules: the import
+    # costs seconds per worker otherwise); the parent never executes library code
+    import warnings
+    with warnings.catch_warnings():
+        warnings.simplefilter("ignore")
+        import sparseSpACE.spatiallyAdaptiveSingleDimension2  # noqa: F401
+    import time
+    t0 = time.time()
+    timing = chk.extra.setdefault('timing_s', {})
+
+    def lap(key):
+        nonlocal t0
+        timing[key] = round(timing.get(key, 0) + time.time() - t0, 1)
+        t0 = time.time()
     impl = run_impl(dw.impl_run, cases, limit=120)
     # a timeout under machine load is not evidence: retry those cases with few workers and a long limit; only a second
     # timeout is reported (a genuinely non-terminating loop in the implementation)
@@ -58,11 +120,14 @@ def evaluate(chk, cases, what, fields, prop, extra_oracle=None):
         again = run_impl(dw.impl_run, [cases[i] for i in slow], nproc=4, limit=900)
         for i, res in zip(slow, again):
             impl[i] = res
+    lap('implementation')
     mcases = [dw.model_case(c, r if st == 'ok' else None) for c, (st, r) in zip(cases, impl)]
     mres = run_model(prop, mcases)
-    # statistic: in how many rebalancing histories did a rotation actually change the levels (model with/without rebalancing)
+    lap('model')
+    # statistic: in how many rebalancing histories did a rotation actually change the levels (model with/without rebalancing);
+    # only for the mixed family (the deep / installed families count rotations per step from the implementation states)
     rb = [(i, dw.model_case(dict(c, rebalancing=False, what=0), r)) for i, (c, (st, r)) in enumerate(zip(cases, impl))
-          if st == 'ok' and c['rebalancing']]
+          if st == 'ok' and c['rebalancing'] and c.get('family') is None and 'exc' not in r]
     for (i, _), plain in zip(rb, run_model(prop, [m for _, m in rb])):
         with_rb = mres[i]
         try:
@@ -77,84 +142,129 @@ def evaluate(chk, cases, what, fields, prop, extra_oracle=None):
         if st != 'ok':
             continue
         for step, s in enumerate(r['states']):
+            if not s.get('trees'):
+                continue
             ck_cases.append((1, [[sx.rat(x) for x in c['a']], [sx.rat(x) for x in c['b']], s['lmax'], s['trees']]))
             ck_idx.append((i, step))
+    lap('model-rebalancing-statistic')
     ck = run_model(prop, ck_cases)
+    lap('checker')
     ck_bad = {}
     for (i, step), v in zip(ck_idx, ck):
         chk.count('checker_evaluations')
         if sx.is_err(v) or isinstance(v, tuple) or not all(v):
             ck_bad.setdefault(i, []).append((step, v))
     info = []
+    confirmations = 0
     for i, (c, (st, r), mr) in enumerate(zip(cases, impl, mres)):
+        fam = c.get('family') or 'mixed'
+        chk.count('family=%s' % fam)
         chk.count('dim=%d' % c['dim']); chk.count('version=%d' % c['version'])
         chk.count('rebalancing=%s' % c['rebalancing']); chk.count('boundary=%s' % c['boundary'])
+        chk.count('lmin=%d,lmax=%d' % (c['lmin'], c['lmax']))
         sig = dict(rebalancing=c['rebalancing'])
+        start = 'installed-state' if c.get('install') else 'initial-state'
         if st != 'ok':
             chk.violation('corr:C%02d/history' % prop, 'impl-exception', dict(exc=(r[0] if r else st), where=(r[1] if r else '')),
                           c, dict(impl=str(r), model=str(mr)[:300]), failing_input=True)
             info.append(None)
             continue
         chk.traces += 1
-        for m in r['modes'][:-1]:
+        nst = len(r['states']) - (1 if 'exc' in r else 0)
+        chk.count('%s:steps' % fam, max(0, nst - 1))
+        for m in (r['modes'][:-1] if c.get('drive', 'full') != 'direct' else r['modes']):
             chk.count('benefits=' + m)
+        # rare situations reached (per step / per state, on the implementation)
+        if c.get('install'):
+            for t in c['install']['trees']:
+                over = [max(o[2], o[3]) - c['lmax'] for o in t if max(o[2], o[3]) > c['lmax']]
+                if len(set(over)) >= 2:
+                    chk.count('install:installation:different-overshoots')
+                if over and over[-1] < max(over):
+                    chk.count('install:installation:last-overshoot<largest-overshoot')
+        for step in range(nst):
+            for e in dw.state_events(c, r['states'][step]):
+                chk.count('%s:%s' % (fam, e))
+            if step >= 1:
+                for e in dw.step_events(c, r['states'][step - 1], r['bens'][step - 1], r['states'][step]):
+                    chk.count('%s:%s' % (fam, e))
         fixed_case = dict(c, bens=jsonable_bens(r['bens']), steps=len(r['bens']))
         # oracles on the implementation alone
-        why, wstep = None, None
-        for step, s in enumerate(r['states']):
-            why = dw.oracle_state_c06(c, s)
-            if why is None and extra_oracle is not None:
-                why = extra_oracle(c, s)
-            if why:
-                wstep = step
-                break
-        if why is None:
-            for step, (b, sel) in enumerate(zip(r['bens'], r['selected'])):
-                w = dw.oracle_selection(c, b, sel)
-                if w:
-                    why, wstep = 'step %d: %s' % (step + 1, w), step + 1
-                    break
-        diff = dw.compare_states(c, r['states'], mr, fields)
+        why, wstep = _first_failure(c, r, extra_oracle)
+        diff = dw.compare_states(c, r['states'][:nst], mr if 'exc' not in r or sx.is_err(mr) or isinstance(mr, tuple) else mr[:nst], fields)
         if why:
-            fc = dict(c, bens=jsonable_bens(r['bens'][:wstep]), steps=wstep)
-            chk.violation('oracle:C%02d' % prop, 'property-predicate', dict(clause=dw.clause_of(why)), fc,
-                          dict(step=wstep, why=why, corr=str(diff)[:300]), failing_input=True)
+            fc, nb = c, jsonable_bens(r['bens'][:wstep])
+            if confirmations < 24:
+                confirmations += 1
+                fc, nb = _confirm_public(c, nb, extra_oracle)
+            if nb is not None:
+                fc = dict(fc, bens=nb, steps=len(nb))
+            chk.violation('oracle:C%02d' % prop, 'property-predicate', dict(clause=dw.clause_of(why), start=start), fc,
+                          dict(step=wstep, why=why, corr=str(diff)[:300], family=fam, drive=fc.get('drive', 'full')), failing_input=True)
+        elif 'exc' in r:
+            estep = r['exc'][3]
+            fc, nb = c, jsonable_bens(r['bens'][:estep])
+            if confirmations < 24:
+                confirmations += 1
+                fc, nb = _confirm_public(c, nb, extra_oracle)
+            if nb is not None:
+                fc = dict(fc, bens=nb, steps=len(nb))
+            chk.violation('corr:C%02d/history' % prop, 'impl-exception', dict(exc=r['exc'][0], where=r['exc'][1], start=start), fc,
+                          dict(step=estep, impl=str(r['exc']), corr=str(diff)[:300], family=fam, drive=fc.get('drive', 'full'),
+                               note='refine() / refinement_postprocessing() raised on a legal refinement history'),
+                          failing_input=True)
         elif diff:
             step, fld, iv, mv = diff
             chk.violation('corr:C%02d/%s' % (prop, fld), 'history-differs', dict(sig, observable=fld),
                           dict(fixed_case, bens=jsonable_bens(r['bens'][:step]), steps=step),
-                          dict(step=step, field=fld, impl=str(iv)[:700], model=str(mv)[:700], modes=r['modes']),
+                          dict(step=step, field=fld, impl=str(iv)[:700], model=str(mv)[:700], modes=r['modes'], family=fam),
                           failing_input=False)
         elif i in ck_bad:
             chk.violation('checker:tree_ok', 'checker-rejects-impl-state', sig, fixed_case,
                           dict(steps=str(ck_bad[i])[:300]), failing_input=False)
-        info.append(dict(result=r, model=mr, ok=(why is None and diff is None and i not in ck_bad)))
+        info.append(dict(result=r, model=mr, ok=(why is None and diff is None and i not in ck_bad and 'exc' not in r)))
+    lap('oracles+comparison')
     return info
 
 
 def run(chk):
     chk.coq_obligations()
-    n = chk.n(150, 2000)
-    cases = corpus(0) + [dw.gen_case(chk.rng, chk.tier, 0) for _ in range(n)]
+    n = chk.n(110, 1500)
+    nd = chk.n(1000, 12000)
+    ni = chk.n(800, 10000)
+    cases = (corpus(0) + [dw.gen_case(chk.rng, chk.tier, 0) for _ in range(n)]
+             + [dw.gen_case_deep(chk.rng, chk.tier, 0) for _ in range(nd)]
+             + [dw.gen_case_install(chk.rng, chk.tier, 0) for _ in range(ni)])
     info = evaluate(chk, cases, 0, FIELDS, PROP)
     keys, samples = [], []
+    seen_fam = set()
     for c, inf in zip(cases, info):
         if inf is None:
             continue
         r = inf['result']
         nsplit = sum(len(s) for st in r['selected'] for s in st)
-        if len(r['bens']) >= 2 and nsplit >= 2:
-            keys.append((c['dim'], c['lmin'], c['lmax'], c['version'], c['rebalancing'], c['boundary'], str(r['selected'])))
-        if len(samples) < 3 and len(r['bens']) >= 3:
-            samples.append(dict(case={k: c[k] for k in ('dim', 'lmin', 'lmax', 'version', 'rebalancing', 'margin', 'safety')},
+        fam = c.get('family') or 'mixed'
+        if (len(r['bens']) >= 2 and nsplit >= 2) or (fam == 'install' and nsplit >= 1):
+            keys.append((fam, c['dim'], c['lmin'], c['lmax'], c['version'], c['rebalancing'], c['boundary'], str(r['selected']),
+                         str((c.get('install') or {}).get('trees'))))
+        if fam not in seen_fam and len(r['bens']) >= (3 if fam != 'install' else 1):
+            seen_fam.add(fam)
+            samples.append(dict(family=fam,
+                                case={k: c[k] for k in ('dim', 'lmin', 'lmax', 'version', 'rebalancing', 'margin', 'safety')},
                                 split_positions_per_step=r['selected'],
                                 final_sizes=[len(t) for t in r['states'][-1]['trees']], final_lmax=r['states'][-1]['lmax']))
     chk.record_cases(len(cases), keys,
-                     'scripted dimension-wise histories on the real SpatiallyAdaptiveSingleDimensions2 (d 2..4, lmin 1..2, lmax<=3(4), '
-                     'versions 2,3,6,7,8, rebalancing on/off, boundary on/off, margins {0.9,0.5,0.75,1,0.25}, safety factors '
-                     '{0.1,0,0.125,0.25,0.05}, <=6 (10) steps, benefits: zeros/ties/single/one-dimension/random/all-equal); every state compared '
-                     'exactly (intervals, levels, coarsening, lmax, index sets, coefficients, container cursors); non-trivial = >=2 steps and '
-                     '>=2 splits; distinct by options and split positions', samples)
+                     'three families on the real SpatiallyAdaptiveSingleDimensions2, every state compared exactly with the extracted model '
+                     '(intervals, levels, coarsening, lmax, index sets, coefficients, container cursors). mixed: scripted ErrorCalculator '
+                     'histories (d 2..4, lmin 1..3 for d=2, versions 2,3,6,7,8, rebalancing on/off, boundary on/off, margins '
+                     '{0.9,0.5,0.75,1,0.25}, safety factors {0.1,0,0.125,0.25,0.05}, <=6 (10) steps, benefits zeros/ties/single/one-dimension/'
+                     'random/all-equal). deep: d=2, lmin 1..3, lmax=lmin+1|+2, 8-16 steps driven directly (benefit attributes + refine()), '
+                     'refinement piled into one dyadic region / spike of one dimension alternating with tied multi-interval steps and '
+                     '"coarsening-0 interval + broad block on the far side" steps, safety factors {0,0.05,0.1}. install: 1-3 steps from a '
+                     'randomly constructed VALID deep state (random dyadic geometry x random binary-tree levels installed into the real '
+                     'containers, refinement_postprocessing with or without the rebalancing pass). Violations found by direct drive are '
+                     'replayed through the public API. non-trivial = >=2 steps and >=2 splits (install: >=1 split); distinct by options, '
+                     'installed trees and split positions', samples)
 
 
 def replay(chk, rep):
@@ -166,17 +276,30 @@ def replay(chk, rep):
         return 1
     r = inf['result']
     rc = 0
-    for step, s in enumerate(r['states']):
+    nst = len(r['states']) - (1 if 'exc' in r else 0)
+    if c.get('install'):
+        print('run starts from an installed state (sizes %s, rebalancing pass at installation: %s)' % (
+            [len(t) for t in c['install']['trees']], c['install']['rebalance']))
+    for step in range(nst):
+        s = r['states'][step]
         why = dw.oracle_state_c06(c, s)
         print('step', step, 'sizes', [len(t) for t in s['trees']], 'lmax', s['lmax'], 'property predicate:', why or 'holds')
         if why:
             rc = 1
+    if 'exc' in r:
+        print('step', r['exc'][3], 'implementation raised', r['exc'][:3])
+        rc = 1
     for step, (b, sel) in enumerate(zip(r['bens'], r['selected'])):
+        if step + 1 >= nst:
+            break
         w = dw.oracle_selection(c, b, sel)
         if w:
             print('step', step + 1, 'selection:', w)
             rc = 1
-    diff = dw.compare_states(c, r['states'], inf['model'], FIELDS)
+    mr = inf['model']
+    if 'exc' in r and not (sx.is_err(mr) or isinstance(mr, tuple)):
+        mr = mr[:nst]
+    diff = dw.compare_states(c, r['states'][:nst], mr, FIELDS)
     print('model vs implementation:', 'agree' if diff is None else 'differ at step %s field %s\n impl  %s\n model %s' % (
         diff[0], diff[1], str(diff[2])[:600], str(diff[3])[:600]))
     return rc
